@@ -51,7 +51,7 @@ theorem prolog_head {lts : List LToken} {trail : Str} (hok : lts.all LToken.okL 
 theorem lexLoop_doc (d : LDoc) (h : d.ok = true) (p0 position : Nat) :
     ∃ ts', lexLoop ⟨⟨p0, d.declText ++
         (renderL d.items ++ d.trail)⟩, .declaration, 0, false⟩ position = (ts', none) ∧
-      ts'.map Token.erase = d.tokens.map Token.erase := by
+      ReadAsList ts' d.tokens := by
   simp only [LDoc.ok, LexOKL, Bool.and_eq_true] at h
   obtain ⟨⟨hdecl, ⟨hok, hn⟩, hl⟩, ht⟩ := h
   cases hd : d.decl with
@@ -71,7 +71,7 @@ theorem lexLoop_doc (d : LDoc) (h : d.ok = true) (p0 position : Nat) :
         simp [LDecl.render, atEnd]
       unfold parseNextImpl
       simp only [hend, Bool.false_eq_true, if_false, startsWith, hx, if_true, hp, Step.ofParse]
-    exact loop_reads rfl (by simp [LDecl.render, atEnd]) (by simp) hstep he
+    exact loop_reads rfl (by simp [LDecl.render, atEnd]) (by simp) hstep (Token.readAs_of_erase he rfl)
       (lexLoop_layout false d.items d.trail .prolog _ _ ⟨rfl, rfl, .inr (.inl rfl)⟩ hok hn hl ht rfl)
 
 theorem bom_ne_lt : ('\uFEFF' : Char) ≠ '<' := by decide
@@ -89,7 +89,7 @@ open XotModel.Lex XotModel.Lex.Canon XotModel.Lex.Free
     reference tokenizer returns the document's tokens (the `Declaration` token first when there is
     a declaration) up to byte positions, and no error. -/
 theorem lexDocument_layout_doc (d : LDoc) (h : d.ok = true) :
-    ∃ ts', lexDocument d.render = (ts', none) ∧ ts'.map Token.erase = d.tokens.map Token.erase := by
+    ∃ ts', lexDocument d.render = (ts', none) ∧ ReadAsList ts' d.tokens := by
   unfold lexDocument
   cases hb : d.bom with
   | true =>
@@ -126,15 +126,13 @@ theorem lexDocument_layout_doc (d : LDoc) (h : d.ok = true) :
 
 /-- **Layout theorem, document mode** (no BOM, no declaration, nothing after the last token). -/
 theorem lexDocument_layout (lts : List LToken) (h : LexOKL false lts = true) :
-    ∃ ts', lexDocument (renderL lts) = (ts', none) ∧
-      ts'.map Token.erase = (lts.map LToken.token).map Token.erase := by
+    ∃ ts', lexDocument (renderL lts) = (ts', none) ∧ ReadAsList ts' (lts.map LToken.token) := by
   have := lexDocument_layout_doc { items := lts } (by simp [LDoc.ok, h, trailOK, isWs])
   simpa [LDoc.render, LDoc.tokens, LDoc.declText] using this
 
 /-- **Layout theorem, fragment mode.** -/
 theorem lexFragment_layout (lts : List LToken) (h : LexOKL true lts = true) :
-    ∃ ts', lexFragment (renderL lts) = (ts', none) ∧
-      ts'.map Token.erase = (lts.map LToken.token).map Token.erase := by
+    ∃ ts', lexFragment (renderL lts) = (ts', none) ∧ ReadAsList ts' (lts.map LToken.token) := by
   simp only [LexOKL, Bool.and_eq_true] at h
   obtain ⟨⟨hok, hn⟩, hl⟩ := h
   exact lexLoop_layout true lts [] (.content 0) (Tokenizer.ofFragment (renderL lts)) _ ⟨rfl, rfl, rfl⟩
@@ -142,10 +140,10 @@ theorem lexFragment_layout (lts : List LToken) (h : LexOKL true lts = true) :
 
 /-- **Layout theorem, either mode**: for every token list that meets `LexOKL` — of any length and
     nesting depth, with any quote per attribute and any white space wherever the grammar allows
-    it — the reference tokenizer reads the text back as the same tokens up to byte positions,
-    without error. -/
+    it — the reference tokenizer reads the text back as the same tokens up to byte positions (an
+    absent prefix at offset 0: `ReadAsList`), without error. -/
 theorem lexMode_layout (m : Mode) (lts : List LToken) (h : LexOKL m.isFragment lts = true) :
-    (lexMode m (renderL lts)).1.map Token.erase = (lts.map LToken.token).map Token.erase ∧
+    ReadAsList (lexMode m (renderL lts)).1 (lts.map LToken.token) ∧
       (lexMode m (renderL lts)).2 = none := by
   cases m with
   | document =>
